@@ -40,6 +40,9 @@ structure DState where
   rmid : Option String := none
   initExpected : Bool := true
   sendQ : List String := []
+  /-- threads whose listener call read a live id but whose payload cannot be encoded: `on_exception` runs, and with
+      the default handling a failure notification is about to be enqueued by that thread -/
+  pendFal : List String := []
   /-- 0 = thread does not exist, 1 = created (Thread.start called), 2 = running -/
   rst : Nat := 0
   wst : Nat := 0
@@ -106,7 +109,15 @@ inductive OpClass
   | lsnLock (kind : LKind)         -- manager lock taken by a listener method
   | lsnPutOp                       -- enqueue made by a listener method
   | failurePut (msg : String)      -- `listener.failure(exc)`: the FAL notification is enqueued (no lock, no item)
+  | excFailurePut (msg : String)   -- default exception handling after an ill-typed listener payload: FAL enqueued
 deriving Inhabited
+
+/-- a listener call that reads a live id but whose payload has a value of an unsupported type: no event line;
+    `on_exception` → default handling → a failure notification will be enqueued by the same thread. -/
+def markFal (s : DState) (tid item : String) (kind : LKind) : DState :=
+  match readCode (getItem s item) with
+  | some id => if (eventLine item id kind).isNone then { s with pendFal := s.pendFal ++ [tid] } else s
+  | none => s
 
 /-- one chunk of thread `tid` (`R`, `W`, `P`, `T<n>`, `E<n>`), `item` given for listener calls of E threads. -/
 def gstep (s : DState) (tid : String) (op : OpClass) (lsnItem : String) : Option (DState × List GEff) :=
@@ -158,9 +169,14 @@ def gstep (s : DState) (tid : String) (op : OpClass) (lsnItem : String) : Option
       | [] => none
     | .send, .send m => some ({ s with wpc := .get, written := s.written ++ [m] }, [.sent (m ++ "\r\n")])
     | _, _ => none
-  else if (match op with | .failurePut _ => true | _ => false) then
+  else if (match op with | .failurePut _ => true | .excFailurePut _ => true | _ => false) then
     match op with
     | .failurePut msg => let l := writeFailure msg; some ({ s with sendQ := s.sendQ ++ [l] }, [.enqueue l])
+    | .excFailurePut msg =>
+      if s.pendFal.contains tid then
+        let l := writeFailure msg
+        some ({ s with sendQ := s.sendQ ++ [l], pendFal := s.pendFal.erase tid }, [.enqueue l])
+      else none
     | _ => none
   else if tid.startsWith "T" then
     match (tid.drop 1).toString.toNat? with
@@ -185,8 +201,9 @@ def gstep (s : DState) (tid : String) (op : OpClass) (lsnItem : String) : Option
         | .mgrLock, .dec =>
           (liftItem s x (.dec k)).map fun (s1, e) => ({ s1 with running := s1.running - 1 }, e)
         | .lsnLock kind, .inCall _ _ =>
-          if lsnItem = x then liftItem s x (.lsnRead (.inst k) kind)
-          else liftItem s lsnItem (.lsnRead (.ext (1000 + n)) kind)
+          let s0 := markFal s tid lsnItem kind
+          if lsnItem = x then liftItem s0 x (.lsnRead (.inst k) kind)
+          else liftItem s0 lsnItem (.lsnRead (.ext (1000 + n)) kind)
         | .adapterBegin, .callBegin _ _ => liftItem s x (.callBegin k)
         | .adapterEnd o, .inCall _ _ => liftItem s x (.callEnd k o)
         | _, _ => none
@@ -195,7 +212,7 @@ def gstep (s : DState) (tid : String) (op : OpClass) (lsnItem : String) : Option
     | none => none
     | some e =>
       match op with
-      | .lsnLock kind => liftItem s lsnItem (.lsnRead (.ext e) kind)
+      | .lsnLock kind => liftItem (markFal s tid lsnItem kind) lsnItem (.lsnRead (.ext e) kind)
       | .lsnPutOp => liftItem s lsnItem (.lsnPut (.ext e))
       | _ => none
   else none
